@@ -450,7 +450,8 @@ def validate_traces(ctx, module, cfg, traces, extra_env=None, workers=1, control
     module understands) to a file and let TLC validate them all in one invocation.
     The trace module prints <<"ACCEPTED", tid>> for every trace it can explain completely
     and may print <<"AT", tid, l>> progress markers. Returns (accepted_ids, progress dict)."""
-    path = os.path.join(ctx.work, "traces-%d.json" % len(ctx.tlc_runs))
+    fd, path = tempfile.mkstemp(prefix="traces-", suffix=".json", dir=ctx.work)   # unique: validations may run in parallel
+    os.close(fd)
     nreal = len(traces)
     traces = list(traces) + list(controls)   # corrupted copies: the trace module must reject them
     with open(path, "w") as f:
